@@ -8,7 +8,7 @@
 (* and validation continues, so one run reports every rejection.           *)
 (* The orchestrator (bin/check) attributes failed conjuncts to properties. *)
 (***************************************************************************)
-EXTENDS Arith, Order, Text, Conv, BigIntM, ErrDec, Roots, Json
+EXTENDS Arith, Order, Text, Conv, BigIntM, ErrDec, Roots, Transc, Json
 T == ndJsonDeserialize("trace.ndjson")
 VARIABLE l
 
@@ -19,11 +19,47 @@ Names(seq) == {seq[i][1] : i \in {j \in 1..Len(seq) : ~seq[j][2]}}
 NearLimit(d) == d.f = FIN /\ Abs(d.e) + NumDigits(d.c) > 33000
 SysFlag(ev) == Bit(ev.fl, F_SYSOVF) \/ Bit(ev.fl, F_SYSUNF) \/ ev.err = "exponent out of range"
 SysAdmit(ev) == NearLimit(ev.x) \/ NearLimit(ev.y) \/ Abs(ev.q) > 33000
+                \/ (ev.op = "pow" /\ ev.y.f = FIN /\ NumDigits(ev.y.c) + ev.y.e >= 3)    \* |y| >= 100: x**y can leave the +-100000 range
 
 RoundingOps == {"add", "sub", "mul", "quo", "abs", "neg", "round", "rem", "reduce", "quantize",
                 "sqrt", "cbrt", "exp", "ln", "log10", "pow"}
 
 Composite == {"sqrt", "cbrt", "exp", "ln", "log10", "pow"}
+\* ---------------- C12: Exp / Ln / Log10 / Pow within one unit in the last place ----------------
+\* integer power checks are exact; fractional powers use the harness's untrusted hint for ln x, verified first
+OutOfNormal(ev) == \/ ev.res.f # FIN \/ IsZero(ev.res.c) \/ Bit(ev.fl, F_SUBN) \/ Bit(ev.fl, F_OVF) \/ Bit(ev.fl, F_UNF)
+                   \/ Adj(ev.res) < ev.ctx.emin \/ Adj(ev.res) > ev.ctx.emax
+PNorm(R, er, p) == IF NumDigits(R) >= p THEN <<R, er>> ELSE <<MulPow10(R, p - NumDigits(R)), er - (p - NumDigits(R))>>
+IntPowOK(ev) ==          \* y an integer with |y| <= 64: exact rational comparison
+  LET x == ev.x  y == ev.y  got == ev.res  p == ev.ctx.p
+      n == ToInt(IntMag(y))
+      XN == PowNat(x.c, n)  en == x.e * n                         \* |x|^|y| = XN * 10^en
+      s == PNorm(got.c, got.e, p)
+      neg == x.n /\ n % 2 = 1
+  IN /\ got.n = neg
+     /\ IF ~y.n
+        THEN /\ (NumDigits(XN) - TrailingZeros(XN) <= p => NumEq(got.c, got.e, XN, en))     \* exact value fits: returned exactly
+             /\ CmpMag(Sub(s[1], One), s[2], XN, en) <= 0 /\ CmpMag(XN, en, Add(s[1], One), s[2]) <= 0
+        ELSE \* (R-1)*10^er * XN*10^en <= 1 <= (R+1)*10^er * XN*10^en
+             /\ CmpMag(Mul(Sub(s[1], One), XN), s[2] + en, One, 0) <= 0
+             /\ CmpMag(One, 0, Mul(Add(s[1], One), XN), s[2] + en) <= 0
+TranscOK(ev) ==
+  LET x == ev.x  got == ev.res  p == ev.ctx.p IN
+  CASE ev.op = "exp" ->
+         IF got.f = INF THEN ~got.n /\ ExpOverflowOK(x.n, x.c, x.e, ev.ctx)
+         ELSE IF got.f # FIN \/ got.n THEN FALSE
+         ELSE IF IsZero(got.c) \/ Bit(ev.fl, F_UNF) \/ Bit(ev.fl, F_SUBN) THEN ExpUnderflowOK(x.n, x.c, x.e, ev.ctx)
+         ELSE ExpOK(x.n, x.c, x.e, got.c, got.e, p)
+    [] ev.op = "ln" -> OutOfNormal(ev) \/ LnOK(x.c, x.e, got.n, got.c, got.e, p)
+    [] ev.op = "log10" -> OutOfNormal(ev) \/ Log10OK(x.c, x.e, got.n, got.c, got.e, p)
+    [] ev.op = "pow" ->
+         IF OutOfNormal(ev) THEN TRUE
+         ELSE IF IsIntegerD(ev.y) /\ (ev.y.e + NumDigits(ev.y.c) <= 2) /\ Cmp(IntMag(ev.y), <<64>>) <= 0
+                 /\ NumDigits(x.c) * ToInt(IntMag(ev.y)) <= 400 THEN IntPowOK(ev)
+         ELSE IF x.n \/ ev.h.f # FIN \/ IsIntegerD(ev.y) THEN TRUE                         \* no hint: not judged
+         ELSE IF ~HintOK(x.c, x.e, ev.h.n, ev.h.c, ev.h.e) THEN TRUE \/ PrintT(<<"UNDECIDED-HINT", ev.op>>)
+         ELSE ~got.n /\ PowOK(ev.y.n, ev.y.c, ev.y.e, ev.h.n, ev.h.c, ev.h.e, got.c, got.e, p)
+    [] OTHER -> TRUE
 \* ---------------- family "a": one Context call ----------------
 Verdict_a(ev) ==
   LET got == ev.res
@@ -48,6 +84,7 @@ Verdict_a(ev) ==
                          \/ Bit(ev.fl, F_SUBN) \/ Bit(ev.fl, F_OVF)
                          \/ IF ev.op = "sqrt" THEN SqrtOK(ev.x.c, ev.x.e, got.c, got.e, ev.ctx.p, Bit(ev.fl, F_INEXACT))
                             ELSE CbrtOK(ev.x.c, ev.x.e, got.c, got.e, ev.ctx.p, Bit(ev.fl, F_INEXACT)))>>,
+       <<"transc", (ev.op \in {"exp", "ln", "log10", "pow"} /\ w.k = "skip" /\ ev.err = "" /\ ev.ctx.p > 0) => TranscOK(ev)>>,
        <<"flags", FlagsOK(ev.op, w, got, ev.fl)>>,
        <<"flagimp", FlagImpOK(got, ev.fl)>>,
        <<"rnd",   (w.k = "fin" /\ ev.op \in {"quantize", "tointx"} /\ ~IsZero(ev.x.c)) =>
@@ -69,7 +106,9 @@ Verdict_o(ev) ==
            w == Want("cmp", [p |-> 0, emax |-> LIMIT, emin |-> -LIMIT, r |-> "", t |-> 0], ev.x, ev.y, 0)
        IN Names(<<
        <<"cmp",    ~nan => ev.cmp = CmpSpec(ev.x, ev.y)>>,
-       <<"total",  ev.tot = CmpTotalSpec(ev.x, ev.y)>>,
+       <<"total",  IF IsNaNForm(ev.x) /\ Rank(ev.x) = Rank(ev.y) /\ ev.x.c # ev.y.c
+                   THEN ev.tot # 0                       \* NaNs of one kind and sign with different payloads: some strict order
+                   ELSE ev.tot = CmpTotalSpec(ev.x, ev.y)>>,
        <<"ctxcmp", ValueOK(w, ev.cres) /\ (w.k = "fin" => (ev.cres.e = 0 /\ ev.cfl = 0)) /\ (w.k = "nan" => ev.cfl = w.fl)>>,
        <<"frame",  SameRepr(ev.xa, ev.x) /\ SameRepr(ev.ya, ev.y)>> >>)
 
@@ -79,7 +118,8 @@ Verdict_om(ev) ==
   Names(<<
     <<"antisym", \A i, j \in I : ev.tot[i][j] = -ev.tot[j][i]>>,
     <<"trans",   \A i, j, k \in I : (ev.tot[i][j] <= 0 /\ ev.tot[j][k] <= 0) => ev.tot[i][k] <= 0>>,
-    <<"zero-iff-same", \A i, j \in I : (ev.tot[i][j] = 0) <=> AbsEq(ev.vals[i], ev.vals[j])>>,
+    <<"zero-iff-same", \A i, j \in I : (ev.tot[i][j] = 0) <=>
+                          (AbsEq(ev.vals[i], ev.vals[j]) /\ (IsNaNForm(ev.vals[i]) => ev.vals[i].c = ev.vals[j].c))>>,
     <<"cmp-antisym", \A i, j \in I : ev.cmp[i][j] # 99 => ev.cmp[i][j] = -ev.cmp[j][i]>>,
     <<"cmp-trans", \A i, j, k \in I : (ev.cmp[i][j] # 99 /\ ev.cmp[j][k] # 99 /\ ev.cmp[i][k] # 99 /\ ev.cmp[i][j] <= 0 /\ ev.cmp[j][k] <= 0) => ev.cmp[i][k] <= 0>>,
     <<"agree", \A i, j \in I : (ev.cmp[i][j] # 99 /\ ev.cmp[i][j] # 0) => ev.tot[i][j] = ev.cmp[i][j]>> >>)
